@@ -949,11 +949,6 @@ class BADS:
                 "Beginning optimization of a DETERMINISTIC objective function\n"
             )
 
-        # Only one function evaluation
-        if self.options["max_fun_evals"] == 1:
-            is_finished = True
-            return
-
         # If dealing with a noisy function, use a large initial mesh
         if self.optim_state["uncertainty_handling_level"] > 0:
             self.options["fun_eval_start"] = np.minimum(
@@ -965,6 +960,11 @@ class BADS:
         self.display_format = self._setup_logging_display_format()
         self._log_column_headers()
         self._display_function_log_(0, "")
+
+        # Only one function evaluation
+        if self.options["max_fun_evals"] == 1:
+            self.optim_state["eff_starting_points"] = self.function_logger.Xn + 1
+            return
 
         if self.options["fun_eval_start"] > 0:
             # Evaluate initial points but not more than options['max_fun_evals']
